@@ -46,3 +46,27 @@ Model/Runner.vos Model/Runner.vok Model/Runner.required_vos: Model/Runner.v Base
 Extract/Extract.vo Extract/Extract.glob Extract/Extract.v.beautified Extract/Extract.required_vo: Extract/Extract.v Model/Runner.vo
 Extract/Extract.vio: Extract/Extract.v Model/Runner.vio
 Extract/Extract.vos Extract/Extract.vok Extract/Extract.required_vos: Extract/Extract.v Model/Runner.vos
+Spec/Rfc4226.vo Spec/Rfc4226.glob Spec/Rfc4226.v.beautified Spec/Rfc4226.required_vo: Spec/Rfc4226.v Base/Prelude.vo Hash/Sha.vo
+Spec/Rfc4226.vio: Spec/Rfc4226.v Base/Prelude.vio Hash/Sha.vio
+Spec/Rfc4226.vos Spec/Rfc4226.vok Spec/Rfc4226.required_vos: Spec/Rfc4226.v Base/Prelude.vos Hash/Sha.vos
+Proofs/BitLemmas.vo Proofs/BitLemmas.glob Proofs/BitLemmas.v.beautified Proofs/BitLemmas.required_vo: Proofs/BitLemmas.v Base/Prelude.vo
+Proofs/BitLemmas.vio: Proofs/BitLemmas.v Base/Prelude.vio
+Proofs/BitLemmas.vos Proofs/BitLemmas.vok Proofs/BitLemmas.required_vos: Proofs/BitLemmas.v Base/Prelude.vos
+Proofs/DeriveProofs.vo Proofs/DeriveProofs.glob Proofs/DeriveProofs.v.beautified Proofs/DeriveProofs.required_vo: Proofs/DeriveProofs.v Base/Prelude.vo Hash/Sha.vo Generated/Tables.vo Model/Decoder.vo Model/Derive.vo Spec/Rfc4226.vo Proofs/BitLemmas.vo
+Proofs/DeriveProofs.vio: Proofs/DeriveProofs.v Base/Prelude.vio Hash/Sha.vio Generated/Tables.vio Model/Decoder.vio Model/Derive.vio Spec/Rfc4226.vio Proofs/BitLemmas.vio
+Proofs/DeriveProofs.vos Proofs/DeriveProofs.vok Proofs/DeriveProofs.required_vos: Proofs/DeriveProofs.v Base/Prelude.vos Hash/Sha.vos Generated/Tables.vos Model/Decoder.vos Model/Derive.vos Spec/Rfc4226.vos Proofs/BitLemmas.vos
+Proofs/OtpProofs.vo Proofs/OtpProofs.glob Proofs/OtpProofs.v.beautified Proofs/OtpProofs.required_vo: Proofs/OtpProofs.v Base/Prelude.vo Hash/Sha.vo Generated/Tables.vo Model/Decoder.vo Model/Derive.vo Model/Otp.vo Spec/Rfc4226.vo Proofs/BitLemmas.vo Proofs/DeriveProofs.vo
+Proofs/OtpProofs.vio: Proofs/OtpProofs.v Base/Prelude.vio Hash/Sha.vio Generated/Tables.vio Model/Decoder.vio Model/Derive.vio Model/Otp.vio Spec/Rfc4226.vio Proofs/BitLemmas.vio Proofs/DeriveProofs.vio
+Proofs/OtpProofs.vos Proofs/OtpProofs.vok Proofs/OtpProofs.required_vos: Proofs/OtpProofs.v Base/Prelude.vos Hash/Sha.vos Generated/Tables.vos Model/Decoder.vos Model/Derive.vos Model/Otp.vos Spec/Rfc4226.vos Proofs/BitLemmas.vos Proofs/DeriveProofs.vos
+Properties/C01.vo Properties/C01.glob Properties/C01.v.beautified Properties/C01.required_vo: Properties/C01.v Base/Prelude.vo Hash/Sha.vo Model/Decoder.vo Model/Derive.vo Model/Otp.vo Spec/Rfc4226.vo Proofs/DeriveProofs.vo Proofs/OtpProofs.vo Model/Errors.vo
+Properties/C01.vio: Properties/C01.v Base/Prelude.vio Hash/Sha.vio Model/Decoder.vio Model/Derive.vio Model/Otp.vio Spec/Rfc4226.vio Proofs/DeriveProofs.vio Proofs/OtpProofs.vio Model/Errors.vio
+Properties/C01.vos Properties/C01.vok Properties/C01.required_vos: Properties/C01.v Base/Prelude.vos Hash/Sha.vos Model/Decoder.vos Model/Derive.vos Model/Otp.vos Spec/Rfc4226.vos Proofs/DeriveProofs.vos Proofs/OtpProofs.vos Model/Errors.vos
+Properties/C02.vo Properties/C02.glob Properties/C02.v.beautified Properties/C02.required_vo: Properties/C02.v Base/Prelude.vo Hash/Sha.vo Generated/Tables.vo Model/Decoder.vo Model/Derive.vo Model/Otp.vo Spec/Rfc4226.vo Proofs/DeriveProofs.vo Proofs/OtpProofs.vo Model/Errors.vo
+Properties/C02.vio: Properties/C02.v Base/Prelude.vio Hash/Sha.vio Generated/Tables.vio Model/Decoder.vio Model/Derive.vio Model/Otp.vio Spec/Rfc4226.vio Proofs/DeriveProofs.vio Proofs/OtpProofs.vio Model/Errors.vio
+Properties/C02.vos Properties/C02.vok Properties/C02.required_vos: Properties/C02.v Base/Prelude.vos Hash/Sha.vos Generated/Tables.vos Model/Decoder.vos Model/Derive.vos Model/Otp.vos Spec/Rfc4226.vos Proofs/DeriveProofs.vos Proofs/OtpProofs.vos Model/Errors.vos
+Properties/C03.vo Properties/C03.glob Properties/C03.v.beautified Properties/C03.required_vo: Properties/C03.v Base/Prelude.vo Hash/Sha.vo Generated/Tables.vo Model/Decoder.vo Model/Derive.vo Model/Otp.vo Spec/Rfc4226.vo Proofs/DeriveProofs.vo Proofs/OtpProofs.vo Model/Errors.vo
+Properties/C03.vio: Properties/C03.v Base/Prelude.vio Hash/Sha.vio Generated/Tables.vio Model/Decoder.vio Model/Derive.vio Model/Otp.vio Spec/Rfc4226.vio Proofs/DeriveProofs.vio Proofs/OtpProofs.vio Model/Errors.vio
+Properties/C03.vos Properties/C03.vok Properties/C03.required_vos: Properties/C03.v Base/Prelude.vos Hash/Sha.vos Generated/Tables.vos Model/Decoder.vos Model/Derive.vos Model/Otp.vos Spec/Rfc4226.vos Proofs/DeriveProofs.vos Proofs/OtpProofs.vos Model/Errors.vos
+Properties/C04.vo Properties/C04.glob Properties/C04.v.beautified Properties/C04.required_vo: Properties/C04.v Base/Prelude.vo Hash/Sha.vo Generated/Tables.vo Model/Decoder.vo Model/Derive.vo Model/Otp.vo Spec/Rfc4226.vo Proofs/DeriveProofs.vo Proofs/OtpProofs.vo Model/Errors.vo
+Properties/C04.vio: Properties/C04.v Base/Prelude.vio Hash/Sha.vio Generated/Tables.vio Model/Decoder.vio Model/Derive.vio Model/Otp.vio Spec/Rfc4226.vio Proofs/DeriveProofs.vio Proofs/OtpProofs.vio Model/Errors.vio
+Properties/C04.vos Properties/C04.vok Properties/C04.required_vos: Properties/C04.v Base/Prelude.vos Hash/Sha.vos Generated/Tables.vos Model/Decoder.vos Model/Derive.vos Model/Otp.vos Spec/Rfc4226.vos Proofs/DeriveProofs.vos Proofs/OtpProofs.vos Model/Errors.vos
